@@ -121,6 +121,47 @@ def _trace_place(du, operand, depth=16):
 
 
 # ------------------------------------------------------------------ R1
+def _retain_removes_only_self(F, body, t):
+    """`wake_queue.retain(|task| !Rc::ptr_eq(task, self))`: the predicate drops exactly the entries that are the polled task."""
+    du = Q.DefUse(body)
+    clo = du.origin(t['a'][1]) if len(t['a']) > 1 else {'k': '?'}
+    if clo['k'] != 'agg' or clo['rv'].get('def') not in F.bodies:
+        return False
+    cb = F.bodies[clo['rv']['def']]
+    pe = Q.find_calls(cb, ['alloc::rc::Rc::<T, A>::ptr_eq'])
+    nots = [1 for b, j, s in cb.stmts() if s['k'] == 'assign' and s['rv']['k'] == 'unop' and s['rv']['op'] == 'Not' and s['lhs']['l'] == 0]
+    others = [tt for b, tt in cb.calls() if tt is not pe[0][1]] if pe else [1]
+    return len(pe) == 1 and len(nots) == 1 and not [o for o in others if not Q.callee_is(o, [re.compile(r'Deref>::deref$')])]
+
+
+@RS.rule('C15.R1c', 'K-GUARD', 'a task that has completed is never in the wake queue: Task::wake looks at the future slot before queuing, and the '
+         'wake a task issued to itself during its final poll is withdrawn when the poll returns Ready')
+def r1c(cx):
+    F = cx.F
+    wb = F.body(WAKE)
+    cx.fn(wb.fn)
+    du = Q.DefUse(wb)
+    uses = _field_uses(wb, STATE, 'wake_queue')
+    pushes = [(blk, t) for kind, desc, t, blk in uses if kind == 'call' and desc == VD + 'push_back']
+    cx.require(pushes, 'Task::wake no longer queues the task (C15.R1 reports that)')
+    slot_tests = [(b, t) for b, t in Q.find_calls(wb, [re.compile(r'RefCell::<T>::(try_borrow|try_borrow_mut|borrow)$')])
+                  if _projects(_trace_place(du, t['a'][0]) or {}, 'yash_executor::Task', 'future')]
+    tested = bool(slot_tests) and all(any(wb.dominates(sb, pb) for sb, _ in slot_tests) for pb, _ in pushes)
+    pb_ = F.body(POLL)
+    cx.fn(pb_.fn)
+    purge = [t for kind, desc, t, blk in _field_uses(pb_, STATE, 'wake_queue') if kind == 'call' and desc == VD + 'retain'
+             and _retain_removes_only_self(F, pb_, t)]
+    cx.site('Task::wake tests the future slot (completed?) before push_back: %s; Task::poll withdraws its own wake on Ready: %s' % (tested, bool(purge)))
+    if not tested:
+        cx.violation(WAKE, 'completed-task-queued', 'Task::wake queues the task without looking whether it has completed (the future slot is '
+                     'empty): a stale waker fired after completion puts the finished task back on the queue - wake_count() is 1, step() returns '
+                     'Some(true) and run_until_stalled() counts a completed task although nothing unfinished exists', loc=wb.loc(pushes[0][1]))
+    if not purge:
+        cx.violation(POLL, 'final-self-wake-kept', 'a task that wakes itself during the poll that completes it stays in the queue: '
+                     '`spawn(poll_fn(|cx| { cx.waker().wake_by_ref(); Poll::Ready(()) }))` makes run_until_stalled() return 2 for one task',
+                     loc=pb_.loc(pb_.d))
+
+
 @RS.rule('C15.R1', 'K-WRITERS+K-GUARD', 'wake queue: push_back / pop_front / reads only, by the reviewed functions; wake pushes only if not already queued')
 def r1(cx):
     F = cx.F
@@ -144,6 +185,8 @@ def r1(cx):
                                  'Executor::step: the woken task is never polled', loc=body.loc(node))
             elif desc in READS:
                 n['read'] += 1
+            elif desc == VD + 'retain' and body.root == POLL and _retain_removes_only_self(F, body, node):
+                cx.site('%s: the completed task removes ITSELF from the queue (order of the others preserved), decided by C15.R1c' % body.fn)
             else:
                 cx.violation(body.root, 'queue:%s' % desc.split('::')[-1],
                              'wake queue operation %s breaks FIFO service (only push_back, pop_front, len, iter, '
